@@ -126,7 +126,9 @@ func (r *Runner) execCheckpoint(e Ev) {
 	if spans == nil {
 		spans = [][]int{}
 	}
-	out := Ev{"op": "checkpoint", "flushwal": flushwal, "spans": spans, "ok": false, "state": Ev{"pts": []any{}, "rks": []any{}}, "during": 0}
+	// without a WAL there is nothing WithFlushedWAL can flush: the checkpoint holds what was flushed
+	// (Options.DisableWAL: no durability before a Flush), so the event carries the effective flag
+	out := Ev{"op": "checkpoint", "flushwal": flushwal && !r.Cfg.DisableWAL, "spans": spans, "ok": false, "state": Ev{"pts": []any{}, "rks": []any{}}, "during": 0}
 	if inner, _ := e["inner"].([]Ev); len(inner) > 0 && r.Hook != nil {
 		// the inner calls run inside Checkpoint, right after it captured its view and released the
 		// DB mutex (its first filesystem step is creating the destination directory)
